@@ -69,25 +69,9 @@ def check(case):
         if case.get("refusals"):
             # the reaction list is built call by call, and some calls in between are refused (they name a species that
             # does not exist): a refused reaction is not part of the model, the accepted ones are - in their order
-            M = specmod.to_model(dict(sp, reactions=[]), initialize=False)
-            for j in range(len(sp["reactions"]) + 1):
-                for kind in [k for pos, k in case["refusals"] if pos == j]:
-                    some = sp["species"][0]
-                    bad = {"hill_unknown_species": ([some], [some, some], "hillpositive",
-                                                    {"k": 1.0, "K": 5.0, "n": 2.0, "s1": "X_undeclared"}),
-                           "massaction_unknown_species": ([some], [], "massaction", {"k": 1.0, "species": some + "*Y_undeclared"}),
-                           "delayed_hill_unknown_species": ([], [some], "hillnegative",
-                                                            {"k": 1.0, "K": 2.0, "n": 1.0, "s1": "X_undeclared"}, "fixed",
-                                                            [some], [some, some], {"delay": 1.0})}[kind]
-                    try:
-                        M.create_reaction(*bad)
-                    except (KeyError, ValueError):
-                        res.label("refused_call_between_reactions:" + kind)
-                    else:
-                        res.skip = "the invalid reaction was not refused"
-                        return res
-                if j < len(sp["reactions"]):
-                    M.create_reaction(*specmod.reaction_tuple(sp["reactions"][j]))
+            M = specmod.build_with_refusals(sp, case["refusals"], res)
+            if M is None:
+                return res
             M.py_initialize()
         else:
             M = specmod.to_model(sp)
@@ -129,8 +113,15 @@ def check(case):
             res.skip = "non-finite rate"
             continue
         for label, iface in (("interface", I), ("safe_interface", Sf)):
-            if label == "safe_interface" and (not all(v > 0 for v in pt["state"].values()) or any(v < 0 for v in own)):
-                continue        # the safe interface's guards (missing reactants, negative propensity -> 0) are active
+            if label == "safe_interface":
+                # the safe interface's guards (a species at zero is not consumed, a negative propensity counts as 0) must
+                # be inactive: every species present, or - where one is absent - every reaction that consumes it at rest
+                absent = [s_ for s_, v in pt["state"].items() if v <= 0]
+                guard_matters = any(own[j] != 0 and (S[s_][j] < 0 or Sd[s_][j] < 0) for s_ in absent for j in range(nr))
+                if guard_matters or any(v < 0 for v in own):
+                    continue
+                if absent:
+                    res.label("safe_interface_with_absent_species")
             dx = np.full(len(x), np.nan)
             iface.py_calculate_deterministic_derivative(x.copy(), dx, t)
             for s, i in s2i.items():
